@@ -29,7 +29,19 @@ func ToMultiAlign(samText string, wrap, start, end int, pad bool, threads int) (
 
 // ToPairAlignDir runs sam.ToPairAlign in directory mode and returns file name -> content.
 func ToPairAlignDir(samText, refFasta, dir string, wrap, start, end int, omitRef, omitIns bool, threads int) (map[string]string, error) {
+	return ToPairAlignDirStale(samText, refFasta, dir, wrap, start, end, omitRef, omitIns, threads, nil)
+}
+
+// ToPairAlignDirStale is ToPairAlignDir into a directory that already holds (longer) files of
+// an earlier run under the given names.
+func ToPairAlignDirStale(samText, refFasta, dir string, wrap, start, end int, omitRef, omitIns bool, threads int, stale map[string]string) (map[string]string, error) {
 	os.RemoveAll(dir)
+	if len(stale) > 0 {
+		os.MkdirAll(dir, 0755)
+		for n, c := range stale {
+			os.WriteFile(filepath.Join(dir, n), []byte(c), 0644)
+		}
+	}
 	err := sam.ToPairAlign(strings.NewReader(samText), strings.NewReader(refFasta), dir, wrap, start, end, omitRef, omitIns, threads)
 	files := map[string]string{}
 	ents, _ := os.ReadDir(dir)
